@@ -13,6 +13,8 @@ echo "| seed | property | verdict of the property's quick check | obligations th
 echo "|---|---|---|---|"
 for d in */; do
   id=${d%/}
+  # resumable: rows already present in $KEEP (a previous partial table) are copied instead of re-run
+  if [ -n "${KEEP:-}" ] && grep -q "^| $id |" "$KEEP"; then grep "^| $id |" "$KEEP"; continue; fi
   prop=$(python3 -c "import json;print(json.load(open('$id/meta.json'))['property'])")
   r=$(/verif/tools/run_seed.sh /verif/seeded/$id/patch.diff $prop 2>&1 | tail -1)
   verdict=$(echo "$r" | awk '{print $2, $3}')
